@@ -140,4 +140,5 @@ def run(prog, rep, tier, cfg):
     rep.need('K5', 'power:update-in-transaction', seen_cl, 'UpdatePledgeTotal changes the total inside its state transaction', X.loc(UP))
     # ---- running totals (amounts, power, datacap) accumulated in loops keep their earlier contributions
     X.accumulator_integrity('K12', 'running-totals', ['fil_actor_miner', 'fil_actor_power'], 'running totals of amounts')
+    X.no_dropped_results('K14', 'results-not-discarded', ['fil_actor_miner', 'fil_actor_power'], 'no Result of a call is discarded')
 
